@@ -2,15 +2,18 @@
 import re
 
 from .. import lib, mir
+from .. import lib_sw as S
 from ..mir import render
 
-EXPLANATION = ("Swarm::handle_transport_event per arm: NewAddress pushes only when absent and emits one FromSwarm::NewListenAddr + one "
-               "SwarmEvent::NewListenAddr; AddressExpired retains != addr and emits both events; ListenerClosed removes the listener's "
-               "entry, emits ExpiredListenAddr per removed address and SwarmEvent::ListenerClosed carrying exactly the removed vector; "
-               "add/remove_external_address update the set and notify once. Helpers: the value returned by "
-               "{External,Listen,Peer}Addresses::on_swarm_event is built only from constants `false`, results of mutator calls, or a "
-               "constant `true` dominated by a definite mutation; no mutator's bool result is discarded; ExternalAddresses evicts when "
-               "len > MAX directly after its single insert.")
+EXPLANATION = ("Swarm::handle_transport_event per arm: NewAddress pushes into this listener's entry only when absent from it and emits one "
+               "FromSwarm::NewListenAddr + one SwarmEvent::NewListenAddr; AddressExpired retains != addr and emits both events; "
+               "ListenerClosed removes the listener's entry, emits ExpiredListenAddr per removed address and SwarmEvent::ListenerClosed "
+               "carrying exactly the removed vector; add/remove_external_address update the set and notify once. Helpers: the value "
+               "returned by {External,Listen,Peer}Addresses::on_swarm_event and by PeerAddresses::add/remove is built only from "
+               "constants `false`, reports of mutator calls with the right polarity (insert(..).is_none(), remove(..).is_some(), "
+               "HashSet::insert/remove), or a constant `true` dominated by a definite mutation; a flag written inside a loop "
+               "accumulates (`|=`); no mutator's bool result is discarded; ExternalAddresses evicts when len > MAX directly after its "
+               "single insert.  Parameters, locals and private fields are identified by position / type / role.")
 ASSUMPTIONS = ["LRU recency order of hashlink::LruCache", "Vec/HashSet semantics"]
 SW = "libp2p_swarm"
 FS = r"behaviour::FromSwarm$"
@@ -21,153 +24,291 @@ def beh(b, variant):
     return lib.calls_with_variant(b, r"NetworkBehaviour::on_swarm_event$", FS, variant)
 
 
-def swe(b, variant):
+def swe(b, variant, ev_q):
     out = []
     for s in b.call_sites(r"VecDeque::push_back$"):
         e = b.site_expr(s)
-        if "pending_swarm_events" in render(e[2][0]) and variant in lib.agg_variants(e[2][1], SE):
+        if S.has_field(e[2][0], ev_q) and variant in lib.agg_variants(e[2][1], SE):
             out.append(s)
     return out
 
 
+# ------------------------------------------------------------------------------- changed-flag discipline
+MUT_BOOL = r"(HashSet::(insert|remove)|BTreeSet::(insert|remove))$"
+INS = r"(LruCache|HashMap|BTreeMap)::insert$"
+REM = r"(LruCache|HashMap|BTreeMap|VecDeque|Vec)::remove$|HashSet::take$"
+DEFINITE = [r"(Vec::remove|Vec::insert)$"]      # + crate-local helpers that front-insert (resolved by what they do, see check())
+
+
+def _report(leaf, trusted):
+    """classification of one leaf of a returned `changed` value: 'ok' / reason it is not acceptable"""
+    if leaf[0] != "call":
+        return "not the report of a mutation: %s" % render(leaf)[:100]
+    name = mir.strip_generics(leaf[1])
+    if re.search(MUT_BOOL, name):
+        return "ok"
+    if any(name == t for t in trusted):
+        return "ok"
+    if re.search(r"Option::is_none$", name) and leaf[2] and leaf[2][0][0] == "call":
+        inner = mir.strip_generics(leaf[2][0][1])
+        if re.search(INS, inner):
+            return "ok"
+        if re.search(REM, inner):
+            return "inverted: `remove(..).is_none()` is true exactly when nothing was removed"
+    if re.search(r"Option::is_some$", name) and leaf[2] and leaf[2][0][0] == "call":
+        inner = mir.strip_generics(leaf[2][0][1])
+        if re.search(REM, inner):
+            return "ok"
+        if re.search(INS, inner):
+            return "inverted: `insert(..).is_some()` is true exactly when the key was already present"
+    return "not the report of a mutation: %s" % render(leaf)[:100]
+
+
+def _definite_blocks(b):
+    """blocks after which the container has definitely changed: positional Vec mutations, and an insert of a key into a map on
+    the edge where a lookup of that very key in that very map found nothing"""
+    out = set(lib.bbs(b.call_sites("|".join(DEFINITE))))
+    for s in b.call_sites(INS):
+        e = b.site_expr(s)
+        if len(e[2]) < 2:
+            continue
+        recv, key = render(e[2][0]), render(e[2][1])
+        miss = S.edges_of(b, lambda c, r: c[0] == "discr" and S.is_call(c[1], r"(LruCache|HashMap|BTreeMap)::(get_mut|get|peek|peek_mut)$") and
+                          len(c[1][2]) >= 2 and render(c[1][2][0]) == recv and render(c[1][2][1]) == key, {"None"})
+        if miss and b.must_pass_edges(s.bb, miss):
+            out.add(s.bb)
+    return out
+
+
+def flag_discipline(ctx, b, ty, trusted):
+    definite = _definite_blocks(b)
+    loops = {bi for bi in b.live if bi in b.reachable(b.succ[bi])}
+    seen_locals = set()
+    for site in S.ret_sites(b):
+        e = b.site_expr(site)
+        for leaf in lib.value_leaves(b, e):
+            r = render(leaf)
+            if leaf[0] == "const" and leaf[1] == 0:
+                continue
+            if leaf[0] == "const" and leaf[1] == 1:
+                # where is this `true` written?  (the return place itself, or a flag local)
+                wsites = [site] if e[0] == "const" else [s for l in S.locals_in(e) for s, x in S.defs_exprs(b, l) if x[0] == "const" and x[1] == 1]
+                for w in wsites:
+                    ok = bool(definite) and w.bb not in b.reachable([0], blocked_nodes=definite)
+                    ctx.ob("changed-flag", "%s: constant `true` only after a definite mutation" % ty, ok, w.loc(),
+                           "`true` is returned on a path without a definite mutation (positional Vec change / insert of an absent key)" if not ok else "`true` dominated by a definite mutation")
+                continue
+            why = _report(leaf, trusted)
+            ctx.ob("changed-flag", "%s: result derives from a mutator's report" % ty, why == "ok", site.loc(), "return value leaf: %s%s" % (r[:120], "" if why == "ok" else " — " + why))
+        # a flag that is (re)written inside a loop must accumulate
+        for l in S.locals_in(e):
+            if l in seen_locals:
+                continue
+            seen_locals.add(l)
+            for w, x in S.defs_exprs(b, l):
+                if w.bb not in loops:
+                    continue
+                acc = False
+                if x[0] == "bin" and x[1] == "BitOr" and any(y[0] == "local" and y[1] == l for y in (x[2], x[3])):
+                    acc = True
+                elif x[0] == "call" and re.search(r"BitOr(Assign)?>?::bitor(_assign)?$", mir.strip_generics(x[1])) and any(y[0] == "local" and y[1] == l for y in x[2]):
+                    acc = True
+                elif (x[0] == "const" and x[1] == 1) or (x[0] == "local" and x[1] == l):
+                    acc = True
+                else:
+                    still_false = S.truth_edges(b, lambda c, r_: c[0] == "local" and c[1] == l, False)
+                    acc = bool(still_false) and b.must_pass_edges(w.bb, still_false)
+                ctx.ob("changed-flag", "%s: flag written in a loop accumulates" % ty, acc, w.loc(),
+                       "`changed` is %s inside the loop: %s" % ("accumulated" if acc else "overwritten", render(x)[:120]))
+    # discarded mutator results
+    for s in b.call_sites(MUT_BOOL + "|" + INS + "|" + REM + ("|" + "|".join(re.escape(t) + "$" for t in trusted) if trusted else "")):
+        name = mir.strip_generics(b.call_name(s.term))
+        if not (re.search(MUT_BOOL, name) or name in trusted):
+            continue
+        dl = s.term["d"]
+        if "pr" in dl:
+            continue
+        used = lib.local_uses(b, dl["l"]) > 0 or dl["l"] == 0
+        ctx.ob("changed-flag", "%s: mutator result not discarded" % ty, used, s.loc(), "%s result is %s" % (name.split("::")[-1], "used" if used else "discarded"))
+
+
 def check(ctx):
     prog = ctx.prog
-    t = ctx.body(SW, r"^libp2p_swarm::Swarm::handle_transport_event$")
+    F_LISTEN = S.role(prog, "swarm.listened")
+    F_EXT = S.role(prog, "swarm.external")
+    EV_Q = S.role(prog, "swarm.events")
+    t = S.nbody(ctx, r"^libp2p_swarm::Swarm::handle_transport_event$")
     rets = t.return_blocks()
+    i_ev = S.param_of_type(t, r"TransportEvent<")
+    EV = "p%d" % i_ev
+    listen_map = "self." + F_LISTEN
 
     def arm(name):
-        ents = lib.arm_entry(t, r"^discr\(event\)$", name)
+        ents = lib.arm_entry(t, r"^discr\(%s\)$" % EV, name)
         ctx.ob("arm", "floor:arm " + name, len(ents) == 1, nontrivial=False, msg=str(ents))
         return [ents[0][1]] if ents else []
     # NewAddress
     a = arm("NewAddress")
-    push = [s for s in t.call_sites(r"Vec::push$") if "listened_addrs" in render(t.site_expr(s))]
+    push = [s for s in t.call_sites(r"(Vec|SmallVec)::push$") if S.has_field(t.site_expr(s)[2][0], F_LISTEN)]
     ctx.floor("arm", "listened_addrs push", push, 1)
     for s in push:
-        ctx.guarded("arm", "NewAddress: push only when absent", s, lambda c, r, l: l == "false" and "contains(" in r and "listened_addrs" in r, "!addrs.contains(&listen_addr)")
-        e = render(t.site_expr(s))
-        ctx.ob("arm", "NewAddress: pushes into this listener's entry", "HashMap::entry(self.listened_addrs, event@NewAddress.listener_id)" in e and "@NewAddress.listen_addr" in e, s.loc(), e[:200])
+        e = t.site_expr(s)
+        recv = render(e[2][0])
+
+        def absent(c, r, l, recv=recv):
+            c, l = S.unnot(c, l)
+            if l != "false" or c[0] != "call" or not re.search(r"::contains$", mir.strip_generics(c[1])) or len(c[2]) < 2:
+                return False
+            v = c[2][0]
+            while v[0] == "call" and re.search(r"Deref>::deref$|as_slice$", mir.strip_generics(v[1])):
+                v = v[2][0]
+            return render(v) == recv and render(c[2][1]).endswith("@NewAddress.listen_addr")
+        ctx.guarded("arm", "NewAddress: push only when absent", s, absent, "!addrs.contains(&listen_addr) on this listener's own entry")
+        ok = ("HashMap::entry(%s, %s@NewAddress.listener_id)" % (listen_map, EV)) in render(e) and "@NewAddress.listen_addr" in render(e[2][1])
+        ctx.ob("arm", "NewAddress: pushes into this listener's entry", ok, s.loc(), render(e)[:200])
     if a:
-        for k, v, want in (("FromSwarm::NewListenAddr", beh(t, "NewListenAddr"), (1, 1)), ("SwarmEvent::NewListenAddr", swe(t, "NewListenAddr"), (1, 1)),
+        for k, v, want in (("FromSwarm::NewListenAddr", beh(t, "NewListenAddr"), (1, 1)), ("SwarmEvent::NewListenAddr", swe(t, "NewListenAddr", EV_Q), (1, 1)),
                            ("listened_addrs.push", push, (0, 1))):
             lib.expect_count(ctx, "arm", "NewAddress/" + k, t, a, rets, lib.bbs(v), want, "NewAddress arm: " + k)
     # AddressExpired
     a = arm("AddressExpired")
-    ret = [s for s in t.call_sites(r"Vec::retain$") if "listened_addrs" in render(t.site_expr(s))]
+    ret = [s for s in t.call_sites(r"(Vec|SmallVec)::retain$") if S.has_field(t.site_expr(s)[2][0], F_LISTEN)]
     ctx.floor("arm", "listened_addrs retain", ret, 1)
     if a:
         for k, v, want in (("FromSwarm::ExpiredListenAddr", [s for s in beh(t, "ExpiredListenAddr") if s.bb in t.reachable(a)], (1, 1)),
-                           ("SwarmEvent::ExpiredListenAddr", swe(t, "ExpiredListenAddr"), (1, 1)), ("addrs.retain", ret, (0, 1))):
+                           ("SwarmEvent::ExpiredListenAddr", swe(t, "ExpiredListenAddr", EV_Q), (1, 1)), ("addrs.retain", ret, (0, 1))):
             lib.expect_count(ctx, "arm", "AddressExpired/" + k, t, a, rets, lib.bbs(v), want, "AddressExpired arm: " + k)
+    lookup = "HashMap::get_mut(%s, %s@AddressExpired.listener_id)" % (listen_map, EV)
     for s in ret:
-        ctx.guarded("arm", "AddressExpired: retain on this listener's entry", s, lambda c, r, l: l == "Some" and "HashMap::get_mut(self.listened_addrs, event@AddressExpired.listener_id)" in r,
+        ctx.guarded("arm", "AddressExpired: retain on this listener's entry", s, lambda c, r, l: l == "Some" and lookup in r,
                     "listened_addrs.get_mut(listener_id) is Some")
+        ctx.ob("arm", "AddressExpired: the vector filtered is this listener's entry", lookup in render(t.site_expr(s)[2][0]), s.loc(), render(t.site_expr(s)[2][0])[:160])
         # whenever the listener is known the address is dropped
-        some = lib.switch_edges_on(t, r"HashMap::get_mut\(self\.listened_addrs, event@AddressExpired\.listener_id\)", {"Some"})
+        some = S.edges_of(t, lambda c, r: lookup in r and c[0] == "discr", {"Some"})
         got = lib.count_range(t, [x for _, x in some], rets, [s.bb])
         ctx.ob("arm", "AddressExpired: known listener => address dropped", got == (1, 1), s.loc(), "retain on the Some edge: %s" % (got,))
-        cl = lib.closure_of(prog, t, t.site_expr(s))
-        r0 = [render(cl.site_expr(mir.Site(cl, x[1], x[2]))) for x in cl.defs[0]] if cl else []
-        ctx.ob("arm", "AddressExpired: retain keeps a != expired", len(r0) == 1 and r0[0].startswith("std::cmp::PartialEq::ne(a, ") or (len(r0) == 1 and "::ne(" in r0[0]), cl and "%s:%d" % (cl.file, cl.line) or "", str(r0)[:160])
+        cl = S.closure_at(prog, t, s)
+        _, caps = S.closure_captures(t, t.site_expr(s))
+        r0 = S.ret_exprs(cl)
+        ok = len(r0) == 1 and S.is_call(r0[0], r"::ne$") and len(caps) == 1 and render(caps[0]).endswith("@AddressExpired.listen_addr") and \
+            sorted(re.sub(r"\^\*?u0", "U", render(x)) for x in r0[0][2]) == ["U", "p2"]
+        ctx.ob("arm", "AddressExpired: retain keeps a != expired", ok, "%s:%d" % (cl.file, cl.line), str([render(x) for x in r0])[:160])
     # ListenerClosed
     a = arm("ListenerClosed")
-    rem = [s for s in t.call_sites(r"HashMap::remove$") if render(t.site_expr(s)).startswith("std::collections::HashMap::remove(self.listened_addrs, event@ListenerClosed.listener_id)")]
+    rem = [s for s in t.call_sites(r"HashMap::remove$") if render(t.site_expr(s)).startswith("std::collections::HashMap::remove(%s, %s@ListenerClosed.listener_id)" % (listen_map, EV))]
     ctx.floor("arm", "listened_addrs.remove(listener)", rem, 1)
-    if a:
+    if a and rem:
         lib.expect_count(ctx, "arm", "ListenerClosed/listened_addrs.remove", t, a, rets, lib.bbs(rem), (1, 1), "ListenerClosed arm removes the listener entry")
         lib.expect_count(ctx, "arm", "ListenerClosed/FromSwarm::ListenerClosed", t, a, rets, lib.bbs(beh(t, "ListenerClosed")), (1, 1), "one FromSwarm::ListenerClosed")
-        lib.expect_count(ctx, "arm", "ListenerClosed/SwarmEvent::ListenerClosed", t, a, rets, lib.bbs(swe(t, "ListenerClosed")), (1, 1), "one SwarmEvent::ListenerClosed")
+        lib.expect_count(ctx, "arm", "ListenerClosed/SwarmEvent::ListenerClosed", t, a, rets, lib.bbs(swe(t, "ListenerClosed", EV_Q)), (1, 1), "one SwarmEvent::ListenerClosed")
         exp = [s for s in beh(t, "ExpiredListenAddr") if s.bb in t.reachable(a)]
         ctx.floor("arm", "ListenerClosed ExpiredListenAddr", exp, 1)
-        nx = [s for s in t.call_sites(r"slice::Iter as std::iter::Iterator>::next$") if s.bb in t.reachable(a)]
-        for n in nx:
+
+        def from_removed(e):
+            """e (following local definitions) derives from the vector removed from listened_addrs"""
+            return any(x[0] == "call" and x[3] == rem[0].bb for x in S.deep_walk(t, e))
+        nx = [s for s in t.call_sites(r"Iterator>::next$|Iterator::next$") if s.bb in t.reachable(a)]
+        nx_removed = [n for n in nx if from_removed(t.site_expr(n))]
+        ctx.ob("arm", "ListenerClosed: iterates the removed vector", len(nx_removed) >= 1, msg="loops over the removed addresses: %d" % len(nx_removed))
+        for n in nx_removed:
             some = [x for _, x in lib.switch_edges_on_site(t, n, {"Some"})]
             got = lib.count_range(t, some, [n.bb], lib.bbs(exp))
             ctx.ob("arm", "ListenerClosed: one ExpiredListenAddr per removed address", got == (1, 1), n.loc(), "per element: %s" % (got,))
         for s in exp:
-            e = render(t.site_expr(s))
-            ctx.ob("arm", "ListenerClosed: expired address is an element of the removed vector", "Iterator>::next(iter)@Some.0" in e, s.loc(), e[-160:])
-        l = [k for k, v in t.names.items() if v == "iter"]
-        its = [render(t.init_expr(x)) for x in l]
-        ctx.ob("arm", "ListenerClosed: iterates the removed vector", any("iter(" in x and "addrs" in x for x in its), msg=str(its)[:200])
-        for s in swe(t, "ListenerClosed"):
-            e = render(t.site_expr(s))
-            ctx.ob("arm", "SwarmEvent::ListenerClosed.addresses = removed vector", re.search(r"addresses: (core::slice::<impl \[T\]>::|slice::)?to_vec\(.*addrs", e) is not None or "addresses: std::slice::to_vec(" in e and "addrs" in e, s.loc(), e[-220:])
-        la = lib.local_by_name(t, "addrs") if [k for k, v in t.names.items() if v == "addrs"].__len__() == 1 else None
-    adr = [k for k, v in t.names.items() if v == "addrs"]
-    inits = [render(t.init_expr(k)) for k in adr]
-    ctx.ob("arm", "ListenerClosed: addrs = listened_addrs.remove(id).unwrap_or_default()",
-           any(x.startswith("std::option::Option::unwrap_or_default(std::collections::HashMap::remove(self.listened_addrs, event@ListenerClosed.listener_id))") for x in inits), msg=str(inits)[:300])
+            e = t.site_expr(s)
+            ok = any(S.call_at(e, n.bb) is not None for n in nx_removed) and re.search(r"Iterator>::next\([^()]*\)@Some\.0\}", render(e)) is not None
+            ctx.ob("arm", "ListenerClosed: expired address is an element of the removed vector", ok, s.loc(), render(e)[-160:])
+        for s in swe(t, "ListenerClosed", EV_Q):
+            e = t.site_expr(s)
+            addrs = None
+            for x in mir.walk(e):
+                if x[0] == "agg" and x[3] == "ListenerClosed" and re.search(SE, mir.strip_generics(x[2])):
+                    addrs = dict(x[4]).get("addresses")
+            ok = addrs is not None and S.call_at(addrs, rem[0].bb) is not None and re.match(r"^(std::slice::to_vec|core::slice::<impl \[T\]>::to_vec|slice::to_vec|smallvec::SmallVec::(to_vec|into_vec)|<.* as std::clone::Clone>::clone|std::iter::Iterator::collect)\(", render(addrs)) is not None
+            ctx.ob("arm", "SwarmEvent::ListenerClosed.addresses = removed vector", ok, s.loc(), render(addrs)[-220:] if addrs is not None else "no addresses field")
+        src = render(t.site_expr(rem[0]))
+        users = []
+        for cs in t.call_sites():
+            ce = t.site_expr(cs)
+            if cs.bb != rem[0].bb and ce[2] and ce[2][0][0] == "call" and ce[2][0][3] == rem[0].bb:
+                users.append(render(ce))
+        ctx.ob("arm", "ListenerClosed: addrs = listened_addrs.remove(id).unwrap_or_default()",
+               any(u.startswith("std::option::Option::unwrap_or_default(" + src) or u.startswith("std::option::Option::unwrap_or(" + src) for u in users), msg=str(users)[:300])
     # external addresses on the swarm
     for fn, variant, call in (("add_external_address", "ExternalAddrConfirmed", r"HashSet::insert$"), ("remove_external_address", "ExternalAddrExpired", r"HashSet::remove$")):
-        b = ctx.body(SW, r"^libp2p_swarm::Swarm::%s$" % fn)
+        b = S.nbody(ctx, r"^libp2p_swarm::Swarm::%s$" % fn)
         ev = beh(b, variant)
-        up = [s for s in b.call_sites(call) if "self.confirmed_external_addr" in render(b.site_expr(s))]
+        up = [s for s in b.call_sites(call) if render(b.site_expr(s)[2][0]) == "self." + F_EXT]
         lib.expect_count(ctx, "external", fn + "/event", b, [0], b.return_blocks(), lib.bbs(ev), (1, 1), "one FromSwarm::" + variant)
         lib.expect_count(ctx, "external", fn + "/set update", b, [0], b.return_blocks(), lib.bbs(up), (1, 1), "confirmed_external_addr updated once")
-    for fn, fld in (("listeners", "listened_addrs"), ("external_addresses", "confirmed_external_addr")):
-        b = ctx.body(SW, r"^libp2p_swarm::Swarm::%s$" % fn)
+    for fn, fld in (("listeners", F_LISTEN), ("external_addresses", F_EXT)):
+        b = S.nbody(ctx, r"^libp2p_swarm::Swarm::%s$" % fn)
         txt = " ".join(render(b.site_expr(s)) for s in b.call_sites())
-        ctx.ob("external", "Swarm::%s reads %s" % (fn, fld), "self." + fld in txt, "%s:%d" % (b.file, b.line), txt[:160])
+        ctx.ob("external", "Swarm::%s reads %s" % (fn, "listened_addrs" if fld == F_LISTEN else "confirmed_external_addr"), "self." + fld in txt, "%s:%d" % (b.file, b.line), txt[:160])
     who = set()
-    for b in prog.bodies(SW):
-        for s in b.call_sites(r"(HashMap|HashSet|Vec)::(insert|remove|push|retain|clear|entry)$"):
-            r = render(b.site_expr(s)[2][0])
-            if "self.listened_addrs" in r or "self.confirmed_external_addr" in r:
+    for fld, what in ((F_LISTEN, "Swarm.listened_addrs"), (F_EXT, "Swarm.confirmed_external_addr")):
+        for b, s, k, c in S.field_uses(prog, SW, fld, r"^libp2p_swarm::Swarm$"):
+            if k in ("mutate", "inner-mut", "capture-mut", "write"):
                 who.add(b.npath)
     ctx.ob("who", "writers of listened_addrs / confirmed_external_addr", who <= {"libp2p_swarm::Swarm::handle_transport_event", "libp2p_swarm::Swarm::add_external_address",
            "libp2p_swarm::Swarm::remove_external_address"} and len(who) == 3, msg=str(sorted(who)))
     # ---- helpers: changed-flag discipline
-    MUT = r"(HashSet::(insert|remove)|PeerAddresses::(add|remove)|LruCache::(insert|remove))$"
-    DEFINITE = r"(Vec::remove|ExternalAddresses::push_front|Vec::insert)$"
-    for mod, ty in (("external_addresses", "ExternalAddresses"), ("listen_addresses", "ListenAddresses"), ("peer_addresses", "PeerAddresses")):
-        b = ctx.body(SW, r"behaviour::%s::%s::on_swarm_event$" % (mod, ty))
-        definite = lib.bbs(b.call_sites(DEFINITE))
-        n_true = 0
-        for d in b.defs[0]:
-            site = mir.Site(b, d[1], d[2])
-            e = b.site_expr(site)
-            for leaf in lib.value_leaves(b, e):
-                r = render(leaf)
-                if leaf[0] == "const" and leaf[1] == 0:
-                    continue
-                if leaf[0] == "const" and leaf[1] == 1:
-                    n_true += 1
-                    ok = bool(definite) and site.bb not in b.reachable([0], blocked_nodes=definite)
-                    ctx.ob("changed-flag", "%s: constant `true` only after a definite mutation" % ty, ok, site.loc(),
-                           "`true` is returned on a path without Vec::remove/insert/push_front" if not ok else "`true` dominated by a definite mutation")
-                    continue
-                ok = leaf[0] == "call" and re.search(MUT, mir.strip_generics(leaf[1])) is not None
-                ctx.ob("changed-flag", "%s: result derives from a mutator's report" % ty, ok, site.loc(), "return value leaf: %s" % r[:120])
-        # discarded mutator results
-        for s in b.call_sites(MUT):
-            dl = s.term["d"]
-            if "pr" in dl:
-                continue
-            used = lib.local_uses(b, dl["l"]) > 0 or dl["l"] == 0
-            ctx.ob("changed-flag", "%s: mutator result not discarded" % ty, used, s.loc(), "%s result is %s" % (mir.strip_generics(b.call_name(s.term)).split("::")[-1], "used" if used else "discarded"))
+    F_ADDRS = S.field_by_type(prog, r"external_addresses::ExternalAddresses$", r"^std::vec::Vec<libp2p_core::Multiaddr>$")
+    front = [b for b in prog.bodies(SW) if re.search(r"external_addresses::ExternalAddresses::\w+$", b.npath) and
+             any(render(b.site_expr(s)[2][0]) == "self." + F_ADDRS for s in b.call_sites(r"Vec::insert$")) and not b.npath.endswith("::on_swarm_event")]
+    PF = "|".join(re.escape(b.npath) + "$" for b in front) or r"^\b$"
+    if len(DEFINITE) == 1:
+        DEFINITE.append(PF)
+    else:
+        DEFINITE[1] = PF
+    PA = "libp2p_swarm::behaviour::peer_addresses::PeerAddresses::"
+    for mod, ty, trusted in (("external_addresses", "ExternalAddresses", []), ("listen_addresses", "ListenAddresses", []),
+                             ("peer_addresses", "PeerAddresses", [PA + "add", PA + "remove"])):
+        b = S.nbody(ctx, r"behaviour::%s::%s::on_swarm_event$" % (mod, ty))
+        flag_discipline(ctx, b, ty, trusted)
+    # the mutators whose report PeerAddresses::on_swarm_event forwards obey the same discipline
+    for fn in ("add", "remove"):
+        b = S.nbody(ctx, r"behaviour::peer_addresses::PeerAddresses::%s$" % fn)
+        flag_discipline(ctx, b, "PeerAddresses::" + fn, [])
     # ExternalAddresses capacity
-    ea = ctx.body(SW, r"behaviour::external_addresses::ExternalAddresses::on_swarm_event$")
+    ea = S.nbody(ctx, r"behaviour::external_addresses::ExternalAddresses::on_swarm_event$")
+    mx = prog.const(SW, r"external_addresses::MAX_LOCAL_EXTERNAL_ADDRS$")
+
+    def over_cap(c, r, l):
+        """edge on which len(self.addresses) > MAX holds (any mirrored / negated spelling)"""
+        c, l = S.unnot(c, l)
+        if c[0] != "bin" or c[1] not in ("Gt", "Lt", "Le", "Ge"):
+            return False
+        def is_len(x):
+            return S.is_call(x, r"Vec::len$") and render(x[2][0]) == "self." + F_ADDRS
+        def is_max(x):
+            return (x[0] == "namedconst" and x[1].endswith("MAX_LOCAL_EXTERNAL_ADDRS")) or (x[0] == "const" and x[1] == mx.get("v"))
+        op = c[1]
+        if is_len(c[2]) and is_max(c[3]):
+            pass
+        elif is_len(c[3]) and is_max(c[2]):
+            op = {"Gt": "Lt", "Lt": "Gt", "Le": "Ge", "Ge": "Le"}[op]
+        else:
+            return False
+        return (op, l) in (("Gt", "true"), ("Le", "false"))
     pops = ea.call_sites(r"Vec::pop$")
     ctx.floor("capacity", "ExternalAddresses pop", pops, 1)
     for s in pops:
-        ctx.guarded("capacity", "evict only when over capacity", s, lambda c, r, l: l == "true" and r == "Gt(std::vec::Vec::len(self.addresses), const:libp2p_swarm::behaviour::external_addresses::MAX_LOCAL_EXTERNAL_ADDRS)",
-                    "len > MAX_LOCAL_EXTERNAL_ADDRS")
-    over = lib.switch_edges_on(ea, r"^Gt\(std::vec::Vec::len\(self\.addresses\), const:.*MAX_LOCAL_EXTERNAL_ADDRS\)$", {"true"})
+        ctx.guarded("capacity", "evict only when over capacity", s, over_cap, "len > MAX_LOCAL_EXTERNAL_ADDRS")
+    over = ea.guard_edges(over_cap)
     got = lib.count_range(ea, [x for _, x in over], ea.return_blocks(), lib.bbs(pops))
     ctx.ob("capacity", "over capacity => exactly one eviction", got == (1, 1), msg="pop on the over-capacity edge: %s" % (got,))
-    pf = ea.call_sites(r"ExternalAddresses::push_front$")
-    tests = [bi for bi in ea.live if ea.switch_info(bi) and render(ea.switch_info(bi)[0]).startswith("Gt(std::vec::Vec::len(self.addresses)")]
+    pf = ea.call_sites(PF)
+    tests = sorted({bi for bi, _ in over})
     new_push = [s for s in pf if s.bb not in ea.reachable(lib.bbs(ea.call_sites(r"Vec::remove$")))]
     ctx.ob("capacity", "capacity test follows the insert of a new address", len(new_push) == 1 and len(tests) == 1 and
            ea.must_pass_nodes(ea.succ[new_push[0].bb], ea.return_blocks(), tests), new_push[0].loc() if new_push else "", "every path after inserting a new address tests len > MAX")
     # most-recent-first order: `addresses` is only ever mutated by front insertion, positional removal and pop
     allowed = {"std::vec::Vec::insert", "std::vec::Vec::remove", "std::vec::Vec::pop"}
     muts = []
-    for b in prog.bodies(SW):
-        if "external_addresses::ExternalAddresses" in b.npath and b.kind != "closure":
-            for s in lib.field_mut_calls(b, "addresses"):
-                muts.append((b, s, mir.strip_generics(b.call_name(s.term))))
+    for b, s, k, c in S.field_uses(prog, SW, F_ADDRS, r"external_addresses::ExternalAddresses$"):
+        if k in ("mutate", "inner-mut", "capture-mut", "write"):
+            muts.append((b, s, c))
     ctx.floor("order", "mutations of ExternalAddresses.addresses", muts, 4)
     for b, s, name in muts:
         ctx.ob("order", "addresses mutated only by front-insert / remove / pop", name in allowed, s.loc(), "&mut self.addresses passed to %s" % name)
@@ -176,12 +317,12 @@ def check(ctx):
             ctx.ob("order", "insertion is at the front", e[2][1][0] == "const" and e[2][1][1] == 0, s.loc(), "Vec::insert index = %s" % render(e[2][1]))
     # refresh of a known address: removed at its position and re-inserted at the front, exactly once each
     pos_some = lib.switch_edges_on(ea, r"^discr\(<std::slice::Iter as std::iter::Iterator>::position\(", {"Some"})
-    conf = [(b_, t_) for (b_, t_) in pos_some if t_ in ea.reachable([x for _, x in lib.arm_entry(ea, r"^discr\(event\)$", "ExternalAddrConfirmed")])]
+    i_eev = S.param_of_type(ea, r"FromSwarm<")
+    conf = [(b_, t_) for (b_, t_) in pos_some if t_ in ea.reachable([x for _, x in lib.arm_entry(ea, r"^discr\(p%d\)$" % i_eev, "ExternalAddrConfirmed")])]
     ctx.ob("order", "floor:refresh edge", len(conf) >= 1, nontrivial=False, msg=str(conf))
     rm = lib.bbs(ea.call_sites(r"Vec::remove$"))
     for _, t_ in conf[:1]:
         got_r = lib.count_range(ea, [t_], ea.return_blocks(), rm)
         got_p = lib.count_range(ea, [t_], ea.return_blocks(), lib.bbs(pf))
         ctx.ob("order", "refresh = remove(pos) + push_front", got_r == (1, 1) and got_p == (1, 1), msg="on the known-address edge: remove %s, push_front %s" % (got_r, got_p))
-    mx = prog.const(SW, r"external_addresses::MAX_LOCAL_EXTERNAL_ADDRS$")
     ctx.ob("capacity", "MAX_LOCAL_EXTERNAL_ADDRS evaluated", isinstance(mx.get("v"), int) and mx["v"] > 0, msg="MAX_LOCAL_EXTERNAL_ADDRS = %s" % mx.get("v"))
